@@ -58,7 +58,7 @@ theorem text_chunk_verbatim (c : OutCfg) (o : RenderOpts) (s : RSt) (pc : Chunk)
       (renderText c o s pc prevCol prevLen).1.o.out = s.o.out ++ pre ++ pc.txt := by
   have hdef : ¬ (pc.ty = "PP_DEFINE" ∧ o.forceTabAfterDefine = true) := by
     rw [hty]; intro h; exact absurd h.1 (by decide)
-  have hlit : decide (pc.ty = "STRING") = true := by simp [hty]
+  have hlit : decide (pc.ty = "STRING" ∨ pc.ty = "STRING_MULTI") = true := by simp [hty]
   obtain ⟨⟨hl', e, he, hpe⟩, hts'⟩ := textIndent_bext c o s.o pc prevCol prevLen hl
   obtain ⟨ho, _⟩ := addText_verbatim_out c (textIndent c o s.o pc prevCol prevLen) pc.txt true hx hne hlast
     (hts'.trans hts) hl' (Or.inl rfl)
